@@ -224,10 +224,29 @@ def c11():
             toks = _ty.tokens(text)
             if len(toks) < 4:
                 continue
-            k = rng.choice(["del", "del", "del", "dup", "swap", "repl"])
+            k = rng.choice(["del", "del", "del", "dup", "swap", "repl", "hollow", "hollow"])
             i = rng.randrange(len(toks))
             t2 = list(toks)
-            if k == "del":
+            if k == "hollow":
+                # everything between a bracket and its partner is removed: +{}, f(), case x (), <>, []
+                opens = [j for j, t in enumerate(toks) if t in "({[<"]
+                if not opens:
+                    continue
+                i = rng.choice(opens)
+                close = {"(": ")", "{": "}", "[": "]", "<": ">"}[toks[i]]
+                depth, j = 0, i
+                while j < len(toks):
+                    if toks[j] == toks[i]:
+                        depth += 1
+                    elif toks[j] == close:
+                        depth -= 1
+                        if depth == 0:
+                            break
+                    j += 1
+                if j >= len(toks):
+                    continue
+                del t2[i + 1:j]
+            elif k == "del":
                 del t2[i:i + rng.choice([1, 2, 3, 3, 4])]
             elif k == "dup":
                 t2.insert(i, t2[i])
